@@ -582,7 +582,7 @@ PROPS["C09"] = Prop(semantic_names=True,
          "base (or none), rates log-uniform 1e-2..1e2, with/without settlement; the same quotes re-ordered with another "
          "base; malformed stream (missing / inverted duplicate / duplicate / cycle / mixed settlement). compared: ok/err, "
          "every rate, full matrix; model-free oracle on the implementation's matrix (diagonal, inverse, triangle law)",
-    classify=_cls_fx, mode="close", modes={"fxrateq": "exact"}, exhaustive=lambda tier: False, trusted=_fx_trusted,
+    classify=_cls_fx, mode="exact", exhaustive=lambda tier: False, trusted=_fx_trusted,
     assumptions=_dual_assume, oracle=_oracle_fx, allow_badop=True)
 
 PROPS["C10"] = Prop(semantic_names=True, 
@@ -590,7 +590,7 @@ PROPS["C10"] = Prop(semantic_names=True,
          "updates of subsets, updates naming unknown/inverted pairs, order switches 0/1/2); after every op: order, full "
          "matrix with gradients and Hessians by name, and a market built directly from the latest quotes; model-free "
          "oracle: every sensitivity to fx_abc is 0 or +-rate/quote",
-    classify=_cls_fx, mode="close", modes={"fxrateq": "exact"}, exhaustive=lambda tier: False, trusted=_fx_trusted,
+    classify=_cls_fx, mode="exact", exhaustive=lambda tier: False, trusted=_fx_trusted,
     assumptions=_dual_assume, oracle=_oracle_fx)
 
 
